@@ -127,7 +127,10 @@ impl SWCurveConfig for Config {
             read_g2_uncompressed(&mut reader)?
         };
 
-        if validate == ark_serialize::Validate::Yes && !p.is_in_correct_subgroup_assuming_on_curve()
+        // An uncompressed encoding carries both coordinates, so the curve equation has to be
+        // checked as well: the fast subgroup test alone accepts points of isomorphic curves.
+        if validate == ark_serialize::Validate::Yes
+            && !(p.is_on_curve() && p.is_in_correct_subgroup_assuming_on_curve())
         {
             return Err(SerializationError::InvalidData);
         }
